@@ -55,11 +55,24 @@ func fieldName(t types.Type, i int) string {
 	if !ok || i >= st.NumFields() {
 		return fmt.Sprintf("f%d", i)
 	}
-	return st.Field(i).Name()
+	name := st.Field(i).Name()
+	// a field that was merely renamed keeps its reference name
+	if ref := refTypeName(t); ref != "" {
+		if old, ok := fieldAlias[ref][name]; ok {
+			return old
+		}
+	}
+	return name
 }
 
 func typeShort(t types.Type) string {
-	return short(types.TypeString(t, nil))
+	s := types.TypeString(t, nil)
+	for cur, ref := range typeAlias {
+		if strings.Contains(s, cur) {
+			s = strings.ReplaceAll(s, cur, ref)
+		}
+	}
+	return short(s)
 }
 
 func allocOrdinal(a *ssa.Alloc) int {
@@ -286,7 +299,7 @@ func (c *Ctx) callPath(cc *ssa.CallCommon, env Env, d int) string {
 		return fmt.Sprintf("invoke<%s>.%s[%s](%s)", typeShort(cc.Value.Type()), cc.Method.Name(), c.path(cc.Value, env, d+1), strings.Join(args, ","))
 	}
 	if f := cc.StaticCallee(); f != nil {
-		return short(f.String()) + "(" + strings.Join(args, ",") + ")"
+		return fname(f) + "(" + strings.Join(args, ",") + ")"
 	}
 	if b, ok := cc.Value.(*ssa.Builtin); ok {
 		return b.Name() + "(" + strings.Join(args, ",") + ")"
